@@ -60,6 +60,22 @@ func init() {
 			if got.String() != wantName {
 				c.Failf(fmt.Sprintf("C14:name:0x%04x", v), "state name of 0x%04x = %q want %q", v, got.String(), wantName)
 			}
+			// 1b the same questions asked at the earliest moment they can be asked: while the package's variables were being
+			//    initialised, before any init() function ran (hook VerifInitProbe, evaluated as a package-level variable)
+			if ia := psatoken.VerifInitProbe; ia != nil {
+				st.Trans.Add(1)
+				if int(ia.States[v]) != want || ia.Valid[v] != wantValid {
+					c.Failf(fmt.Sprintf("C14:during-package-initialisation:state:0x%04x", v), "before the package's init() functions ran: LifeCycleToState(0x%04x)=%d, ValidateSecurityLifeCycle accepted=%v; specified state index %d", v, ia.States[v], ia.Valid[v], want)
+				}
+				// v read as a state value
+				sn := "invalid"
+				if v < 7 {
+					sn = lcNames[v]
+				}
+				if ia.Names[v] != sn || ia.IsVal[v] != (v < 7) {
+					c.Failf(fmt.Sprintf("C14:during-package-initialisation:name:%d", v), "before the package's init() functions ran: LifeCycleState(%d).String()=%q IsValid=%v, want %q", v, ia.Names[v], ia.IsVal[v], sn)
+				}
+			}
 			// 2 validator
 			err := psatoken.ValidateSecurityLifeCycle(v)
 			st.Trans.Add(1)
